@@ -46,6 +46,7 @@ class ObjectGenerationData:
         self.auxiliary_types = CodeBlock()
         self.docstring = CodeBlock()
         self.repr_fields = ["byte_size"]
+        self.serialize_tracks_missing_optional = False
 
     def add_method(self, method):
         if self.methods:
@@ -410,6 +411,7 @@ class ObjectCodeGenerator:
 
         self._context.reached_optional_field = False
         self._context.reached_dummy = False
+        self._data.serialize_tracks_missing_optional = False
 
         self._data.serialize.add_line("writer.add_byte(0xFF)")
         self._data.deserialize.add_line("reader.next_chunk()")
